@@ -95,6 +95,15 @@ func genScenario(t *rapid.T) scenario {
 		for j := 0; j < k; j++ {
 			sizes = append(sizes, rapid.IntRange(4, 40).Draw(t, "size"))
 		}
+		if i == 0 && rapid.IntRange(0, 7).Draw(t, "fill") == 0 {
+			// packets that bring the fresh 2048-byte ring exactly to its capacity
+			// (every packet costs its length plus two bytes)
+			if rapid.Bool().Draw(t, "fillOne") {
+				sizes[0] = 2046
+			} else if k >= 2 {
+				sizes[0], sizes[1] = 1000, 1044
+			}
+		}
 		sc.Writers = append(sc.Writers, sizes)
 	}
 	sc.Close = rapid.IntRange(0, 2).Draw(t, "close") == 0
@@ -603,7 +612,7 @@ func runScenario(sc scenario, ch sched.Chooser, c *ev.Case, logf func(string, ..
 	}
 }
 
-const ruleC08 = "rapid-drawn scenario (1..3 readers x 1..2 reads, 1..2 writers x 1..3 writes, optional Close task, optional SetReadDeadline(past[,zero]) task, or a deadliner task with 1..4 SetReadDeadline(past | zero | now+1,2,5 units) on a virtual clock plus a clock task whose advances turn every due timer into a callback task, so 'the timer has fired, its callback has not run yet, and the deadline is changed' is schedulable) and a rapid-drawn schedule (strategies uniform / run-length / hold-at-block / priority-with-change-points) over every lock, unlock, channel and select operation of the yield-instrumented packetio/buffer.go and deadline/deadline.go; oracle at true quiescence: no reader parked in Read while Count()>0, none after Close returned, none under a passed deadline (virtual clock: the last value set has passed and every due callback has run; a deadline still ahead is then made to pass: all readers must return and further reads time out), reads+buffered==writes with intact, unduplicated, per-writer-ordered packets, no panic, then drain to EOF; non-trivial = >=2 readers were between their emptiness check and the blocking select when a writer took the lock, or Close ran against a waiting reader; distinct by hash of scenario + step trace"
+const ruleC08 = "rapid-drawn scenario (1..3 readers x 1..2 reads, 1..2 writers x 1..3 writes of 4..40 bytes (in an eighth of the cases the first writer's packets bring the fresh 2048-byte ring exactly to its capacity), optional Close task, optional SetReadDeadline(past[,zero]) task, or a deadliner task with 1..4 SetReadDeadline(past | zero | now+1,2,5 units) on a virtual clock plus a clock task whose advances turn every due timer into a callback task, so 'the timer has fired, its callback has not run yet, and the deadline is changed' is schedulable) and a rapid-drawn schedule (strategies uniform / run-length / hold-at-block / priority-with-change-points) over every lock, unlock, channel and select operation of the yield-instrumented packetio/buffer.go and deadline/deadline.go; oracle at true quiescence: no reader parked in Read while Count()>0, none after Close returned, none under a passed deadline (virtual clock: the last value set has passed and every due callback has run; a deadline still ahead is then made to pass: all readers must return and further reads time out), reads+buffered==writes with intact, unduplicated, per-writer-ordered packets, no panic, then drain to EOF; non-trivial = >=2 readers were between their emptiness check and the blocking select when a writer took the lock, or Close ran against a waiting reader; distinct by hash of scenario + step trace"
 
 func TestC08Schedules(t *testing.T) {
 	r := ev.New("C08", "schedules", ruleC08)
